@@ -195,6 +195,20 @@ def job_continuum(cfg):
             I0, Ik = exact_face_integrals(dim, axis, value, zero)
             want_F = I0 * thick_factor
             want_M = [Ik[k] * thick_factor for k in range(dim)]
+        elif load in ("surf_multi", "volume_multi"):
+            # SEVERAL components in ONE call (a function, a plain number, a function): each component is integrated on its own
+            coefs_b = [c.var(f"d{i}", -1, 1) for i in range(dim + 1)]
+            unk_all = simu.Get_unknowns()
+            plainv = Fraction(3, 2)
+            comps_vals = [f_of(coefs), 1.5, f_of(coefs_b)][:len(unk_all)]
+            comps_coefs = [coefs, [as_sym(plainv)] + [as_sym(0)] * dim, coefs_b][:len(unk_all)]
+            if load == "surf_multi":
+                simu.add_surfLoad(nodes, comps_vals, unk_all)
+                multi_want = [exact_face_integrals(dim, axis, value, cc) for cc in comps_coefs]
+            else:
+                simu.add_volumeLoad(mesh.nodes, comps_vals, unk_all)
+                multi_want = [exact_volume_integrals(dim, cc) for cc in comps_coefs]
+            want_F = want_M = None
         elif load in ("volume_plain", "surf_plain"):
             # the density is a plain Python number (the most common call): same resultant AND same first moments as any other constant density
             plain = [as_sym(Fraction(3, 4))] + [as_sym(0)] * dim
@@ -240,6 +254,13 @@ def job_continuum(cfg):
             s2.add_surfLoad(nodes, [v2], [unknown])
         elif load == "surf_const":
             s2.add_surfLoad(nodes, [cf[0]], [unknown])
+        elif load in ("surf_multi", "volume_multi"):
+            cb = [fval(env, x) for x in coefs_b]
+            vals2 = [f_of(cf), 1.5, f_of(cb)][:dof_n]
+            if load == "surf_multi":
+                s2.add_surfLoad(nodes, vals2, s2.Get_unknowns())
+            else:
+                s2.add_volumeLoad(mesh.nodes, vals2, s2.Get_unknowns())
         elif load == "volume_plain":
             s2.add_volumeLoad(mesh.nodes, [0.75], [unknown])
         elif load == "surf_plain":
@@ -265,6 +286,15 @@ def job_continuum(cfg):
                 info[f"first_moment_{k}"] = m
                 info[f"expected_first_moment_{k}"] = fval(env, want_M[k])
                 bad = bad or abs(m - fval(env, want_M[k])) > 1e-9
+        if load in ("surf_multi", "volume_multi"):
+            for k_, (I0_, Ik_) in enumerate(multi_want):
+                w0 = fval(env, I0_ * thick_factor)
+                info[f"component_{k_}_resultant"] = float(Ff[:, k_].sum())
+                info[f"component_{k_}_expected"] = w0
+                bad = bad or abs(Ff[:, k_].sum() - w0) > 1e-9
+                for kk in range(dim):
+                    m = float((X[:, kk] * Ff[:, k_]).sum())
+                    bad = bad or abs(m - fval(env, Ik_[kk] * thick_factor)) > 1e-9
         if load == "pressure":
             R = Ff.sum(axis=0)[:dim]
             mag = abs(cf[0]) * 1.0 * (tf if dim == 2 else 1.0)
@@ -273,6 +303,25 @@ def job_continuum(cfg):
             bad = bad or abs(abs(R[axis]) - mag) > 1e-9 or (tang.size and float(np.abs(tang).max()) > 1e-9)
         return bad, info
 
+    if load in ("surf_multi", "volume_multi"):
+        for k_, (I0_, Ik_) in enumerate(multi_want):
+            tot = as_sym(0)
+            for n in range(mesh.Nn):
+                tot = tot + Fn[n, k_]
+            res.record(f"{key} component {k_}: resultant", prove_abs_le(tot - I0_ * thick_factor, TOL, pcs, key), replay, key=f"{key} resultant of each component",
+                       sample=None if k_ else {"config": key, "obligation": "one call with several components (function, plain number, function): each component's resultant and first moments equal its own density's, for all coefficients"})
+            for kk in range(dim):
+                m = as_sym(0)
+                for n in range(mesh.Nn):
+                    m = m + (Fraction(float(X[n, kk])) - x0[kk]) * Fn[n, k_]
+                res.record(f"{key} component {k_}: first moment about x0, axis {kk}", prove_abs_le(m - (Ik_[kk] * thick_factor - x0[kk] * I0_ * thick_factor), TOL * 10, pcs, key), replay, key=f"{key} moment of each component")
+        tot = as_sym(0)
+        for n in range(mesh.Nn):
+            tot = tot + Fn[n, 0]
+        tw = prove_abs_le(tot - multi_want[0][0] * thick_factor * 2, TOL, pcs, "twin")
+        res.twin(f"{key} twin", tw.status == "cex")
+        res.stubs |= facade.USED_STUBS
+        return res
     if load == "pressure":
         # magnitude p * area (* thickness), directed along the face normal; which of +-n the code pushes along is the
         # orientation convention of the boundary normals (C08), read off the shadow point here
@@ -497,6 +546,10 @@ def main():
             k += 1
     for et in ("TRI3", "QUAD4", "TETRA4", "PRISM6"):
         configs.append({"sim": "elastic", "elem": et, "load": "surf_poly", "selection": "only-stray", "axis": 0, "value": 1.0})
+    # several components in one call
+    for et, ld in ((("TRI3", "surf_multi"), ("QUAD4", "volume_multi"), ("HEXA8", "surf_multi")) if tier == "quick" else
+                   (("TRI3", "surf_multi"), ("TRI6", "volume_multi"), ("QUAD4", "volume_multi"), ("QUAD8", "surf_multi"), ("TETRA4", "volume_multi"), ("HEXA8", "surf_multi"), ("PRISM6", "surf_multi"))):
+        configs.append({"sim": "elastic", "elem": et, "load": ld, "selection": "face", "axis": 1 if et in ("TRI3", "QUAD8", "TRI6", "QUAD4") else 2, "value": 1.0})
     # plain-number densities on unstructured (non-parallelogram) first- and second-order elements: volume loads and the unstructured top face of the extrusions
     for et in (["QUAD4", "HEXA8", "PRISM6"] if tier == "quick" else ["TRI3", "QUAD4", "QUAD8", "QUAD9", "TETRA4", "HEXA8", "HEXA20", "PRISM6", "PRISM15"]):
         configs.append({"sim": "elastic", "elem": et, "load": "volume_plain", "selection": "face", "axis": 0, "value": 1.0})
